@@ -34,7 +34,7 @@ TRUSTED_BASE = ["Coq 8.16.1 kernel (coqc), vm_compute only",
 ASSUMPTIONS = ["write/lseek/read on the two regular files never fail and never transfer fewer bytes than asked while data is available",
                "message sequence numbers below 2^31 (the nearest loop does not terminate for last = 2^32-1); control values: the whole unsigned range"]
 RULE = ("random operation sequences of length <= 40 (put/get/control put/control get/last/nearest/range get with and without "
-        "abort/reopen) over sequence numbers 0..12, payloads of 0..64 random bytes plus 8191/8192, control values small or from "
+        "abort/reopen) over sequence numbers 0..12, payloads of 0..64 random bytes plus 8191/8192/8193, control values 0, small or from "
         "{8191, 8192, 8193, 65535, 65536, 2^31-1, 2^31, 2^32-1} (each also in a fixed case, read back across a reopen), on the real "
         "MemoryPersister (control record compared exactly), the real FilePersister without reopen and with close+reopen between operations; most sequences "
         "are control-first and search from >= 1 (inside the theorems' hypotheses), a fixed share exercises each listed "
@@ -77,7 +77,7 @@ def parse(line):
 def payload(rng, big_ok=False):
     m = rng.randrange(20)
     if big_ok and m == 0:
-        n = rng.choice((8191, 8192))
+        n = rng.choice((8191, 8192, 8193))
     elif m < 3:
         n = rng.choice((0, 1, 64))
     else:
@@ -92,7 +92,14 @@ CTL_BOUNDARY = (8191, 8192, 8193, 65535, 65536, 2**31 - 1, 2**31, 2**32 - 1)
 
 
 def ctl_val(rng):
-    return rng.choice(CTL_BOUNDARY) if rng.randrange(5) < 2 else rng.randrange(0, 40)
+    """0 (the value of a default-constructed record; (0,0) is a legal first control store), a boundary
+    value of the packing into the index record, or a small number"""
+    r = rng.randrange(10)
+    if r < 2:
+        return 0
+    if r < 5:
+        return rng.choice(CTL_BOUNDARY)
+    return rng.randrange(1, 40)
 
 
 def gen_ops(rng, kind, n, ctl_first, zero_ok, reopen, mem_ctl, big_ok):
@@ -157,11 +164,20 @@ def gen_cases(rng, tier):
         cs.append(mk("M", [("C", v, w), ("c",), ("C", w, v), ("c",), ("P", 2, b"ab"), ("c",), ("L",)], "ctl-boundary"))
         cs.append(mk("F", [("C", v, w), ("c",), ("O",), ("c",), ("P", 2, b"ab"), ("C", w, v), ("c",), ("O",), ("c",), ("G", 2), ("L",)],
                      "ctl-boundary"))
-    # boundary of the 8192-byte read buffer: 8192 is fine on both
+    # control stores of (0,0), of a value equal to the stored one, and of one component changed, each read
+    # back directly and across a reopen (twice: the second reopen sees what the first session wrote)
     for kind in "MF":
-        for n in (8191, 8192):
+        for (a, b) in ((0, 0), (0, 7), (7, 0)):
+            ops = [("C", a, b), ("c",), ("O",), ("c",), ("P", 1, b"m1"), ("C", a, b), ("c",), ("C", 3, 4), ("C", 3, 4),
+                   ("O",), ("c",), ("G", 1), ("C", 0, 0), ("O",), ("c",), ("G", 1)]
+            cs.append(mk(kind, [o for o in ops if kind == "F" or o[0] != "O"], "ctl-zero-equal"))
+    # boundary of MaxMsgLen: 8192 is stored by both, 8193 is refused by the file persister (then the
+    # number is still free) and stored by the memory persister
+    for kind in "MF":
+        for n in (8191, 8192, 8193, 9000):
             b = bytes((i * 7 + n) & 255 for i in range(n))
-            cs.append(mk(kind, [("C", 1, 1), ("P", 3, b), ("G", 3), ("R", 1, 0, 0)] + ([("O",), ("G", 3)] if kind == "F" else []), "max-length"))
+            cs.append(mk(kind, [("C", 1, 1), ("P", 3, b), ("G", 3), ("R", 1, 0, 0), ("P", 3, b"zz"), ("G", 3), ("L",)]
+                         + ([("O",), ("G", 3)] if kind == "F" else []), "max-length"))
     return cs
 
 
@@ -193,23 +209,6 @@ def nontrivial(case, r):
 
 # --------------------------------------------------------------------------- classifiers
 
-def c_mem_control(case, r, m):
-    """memory persister: a control get after a control put, or a second control put
-    (finding repaired by 760121b: the entry is listed as fixed and suppresses nothing)"""
-    kind, ops = parse(case.line)
-    if kind != "M":
-        return False
-    n = 0
-    for o in ops:
-        if o[0] == "C":
-            n += 1
-            if n >= 2:
-                return True
-        elif o[0] == "c" and n:
-            return True
-    return False
-
-
 def c_zero_request(case, r, m):
     """a search / range retrieval starting at 0 while a control record is present (stored under key 0)"""
     kind, ops = parse(case.line)
@@ -231,7 +230,7 @@ def c_msg_first_reopen(case, r, m):
     for o in ops:
         if slot == "lost" and o[0] == "O":
             return True
-        if slot == "virgin" and o[0] == "P" and o[1] != 0:
+        if slot == "virgin" and o[0] == "P" and o[1] != 0 and len(o[2]) <= 8192:
             slot = "msg"
         elif slot == "virgin" and o[0] == "C":
             slot = "ctl"
@@ -240,14 +239,7 @@ def c_msg_first_reopen(case, r, m):
     return False
 
 
-def c_overlong(case, r, m):
-    """file persister: a record longer than MaxMsgLen = 8192 was stored and is read back"""
-    kind, ops = parse(case.line)
-    return kind == "F" and any(o[0] == "P" and len(o[2]) > 8192 for o in ops) and m == "OOB"
-
-
-CLASSIFIERS = {"mem-control": c_mem_control, "zero-request": c_zero_request,
-               "msg-first-reopen": c_msg_first_reopen, "overlong": c_overlong}
+CLASSIFIERS = {"zero-request": c_zero_request, "msg-first-reopen": c_msg_first_reopen}
 
 
 # --------------------------------------------------------------------------- search / shrink
